@@ -656,6 +656,14 @@ class NoteEvent(EventType, partial_events=(
         self['is_playing'] = True
 
 
+class RestEvent(EventType, partial_events=(
+        PitchKeys, AmplitudeKeys, DurationKeys, ServerKeys)):
+    type = 'rest'
+
+    def play(self):
+        pass  # Only takes time.
+
+
 class MidiEvent(EventType, partial_events=(
         PitchKeys, AmplitudeKeys, DurationKeys, MidiKeys)):
     type = 'midi'
